@@ -21,14 +21,14 @@ package evaluator
 //@   ensures outside: isArr(v) && (i >= len(arr(v)) || i < 0 - len(arr(v))) ==> result == nil
 
 //@ func slice
-//@   tags C12 C01 C03 C06
-//@   ensures[C12 C01] other: !isArr(v) && !isStr(v) ==> result == nil
-//@   ensures[C12] arr.kind: isArr(v) ==> isArr(result)
-//@   ensures[C12] arr.len: isArr(v) ==> len(arr(result)) == pyLen(pyStart(len(arr(v)), start, 1), pyStop(len(arr(v)), stop, 1), 1)
-//@   ensures[C12] arr.elems: isArr(v) ==> (forall k Int :: 0 <= k && k < len(arr(result)) ==> arr(result)[k] == arr(v)[pyStart(len(arr(v)), start, 1) + k])
-//@   ensures[C12 C11] str.kind: isStr(v) ==> isStr(result)
-//@   ensures[C12 C11] str.window: isStr(v) && pyStart(runes(str(v)), start, 1) < pyStop(runes(str(v)), stop, 1) ==> same(str(result), unitWindow(str(v), pyStart(runes(str(v)), start, 1), pyStop(runes(str(v)), stop, 1)))
-//@   ensures[C12 C11] str.empty: isStr(v) && pyStart(runes(str(v)), start, 1) >= pyStop(runes(str(v)), stop, 1) ==> len(str(result)) == 0
+//@   tags C12 C01 C03 C06 C11
+//@   ensures[C12 C01 C03 C11] other: !isArr(v) && !isStr(v) ==> result == nil
+//@   ensures[C12 C01 C03 C11] arr.kind: isArr(v) ==> isArr(result)
+//@   ensures[C12 C01 C03 C11] arr.len: isArr(v) ==> len(arr(result)) == pyLen(pyStart(len(arr(v)), start, 1), pyStop(len(arr(v)), stop, 1), 1)
+//@   ensures[C12 C01 C03 C11] arr.elems: isArr(v) ==> (forall k Int :: 0 <= k && k < len(arr(result)) ==> arr(result)[k] == arr(v)[pyStart(len(arr(v)), start, 1) + k])
+//@   ensures[C12 C11 C01 C03] str.kind: isStr(v) ==> isStr(result)
+//@   ensures[C12 C11 C01 C03] str.window: isStr(v) && pyStart(runes(str(v)), start, 1) < pyStop(runes(str(v)), stop, 1) ==> same(str(result), unitWindow(str(v), pyStart(runes(str(v)), start, 1), pyStop(runes(str(v)), stop, 1)))
+//@   ensures[C12 C11 C01 C03] str.empty: isStr(v) && pyStart(runes(str(v)), start, 1) >= pyStop(runes(str(v)), stop, 1) ==> len(str(result)) == 0
 //@   loop 1
 //@     invariant 0 <= i && i <= start && start <= runes(str(v0)) && 0 <= stop && stop <= runes(str(v0))
 //@     invariant sameBase(s, str(v0)) && hi(s) == hi(str(v0)) && lo(s) == roff(s, ridx(s, lo(str(v0))) + i)
@@ -44,14 +44,14 @@ package evaluator
 //@ ghost unitWindow(s Str, a Int, b Int) Str = mkstr(base(s), roff(s, ridx(s, lo(s)) + a), roff(s, ridx(s, lo(s)) + b))
 
 //@ func sliceStep
-//@   tags C12 C03 C06 C09
+//@   tags C12 C03 C06 C09 C01 C11
 //@   requires step.nonzero: step != 0
-//@   ensures[C12 C01] other: !isArr(v) && !isStr(v) ==> result == nil
-//@   ensures[C12] arr.kind: isArr(v) ==> isArr(result) && fresh(arr(result))
-//@   ensures[C12] arr.len: isArr(v) ==> len(arr(result)) == pyLen(pyStart(len(arr(v)), start, step), pyStop(len(arr(v)), stop, step), step)
-//@   ensures[C12] arr.elems: isArr(v) ==> (forall k Int :: 0 <= k && k < len(arr(result)) ==> arr(result)[k] == arr(v)[pyStart(len(arr(v)), start, step) + k * step])
-//@   ensures[C12 C11] str.kind: isStr(v) ==> isStr(result)
-//@   ensures[C12 C11] str.count: isStr(v) ==> runes(str(result)) == pyLen(pyStart(runes(str(v)), start, step), pyStop(runes(str(v)), stop, step), step)
+//@   ensures[C12 C01 C03 C09 C11] other: !isArr(v) && !isStr(v) ==> result == nil
+//@   ensures[C12 C01 C03 C09 C11] arr.kind: isArr(v) ==> isArr(result) && fresh(arr(result))
+//@   ensures[C12 C01 C03 C09 C11] arr.len: isArr(v) ==> len(arr(result)) == pyLen(pyStart(len(arr(v)), start, step), pyStop(len(arr(v)), stop, step), step)
+//@   ensures[C12 C01 C03 C09 C11] arr.elems: isArr(v) ==> (forall k Int :: 0 <= k && k < len(arr(result)) ==> arr(result)[k] == arr(v)[pyStart(len(arr(v)), start, step) + k * step])
+//@   ensures[C12 C11 C01 C03 C09] str.kind: isStr(v) ==> isStr(result)
+//@   ensures[C12 C11 C01 C03 C09] str.count: isStr(v) ==> runes(str(result)) == pyLen(pyStart(runes(str(v)), start, step), pyStop(runes(str(v)), stop, step), step)
 //@   loop 1
 //@     invariant 0 <= i && i <= n && n == len(r) && fresh(r) && soffZero(r)
 //@     invariant l == len(a) && start == pyStart(l, start0, step)
@@ -109,7 +109,7 @@ package evaluator
 //@ ghost truthy(v Val) Bool = !(v == nil || (isBool(v) && !boolv(v)) || (isStr(v) && len(str(v)) == 0) || (isArr(v) && len(arr(v)) == 0) || (isObj(v) && len(obj(v)) == 0) || (isJNum(v) && len(jnum(v)) == 0))
 
 //@ func isNumber
-//@   tags C14 C05
+//@   tags C14 C05 C18
 //@   ensures allkinds: result == isNum(v)
 
 //@ func isTrue
@@ -117,8 +117,8 @@ package evaluator
 //@   ensures truthiness: result == truthy(v)
 
 //@ func toDecimal
-//@   tags C05 C14
-//@   ensures ok: result1 == numOk(v)
+//@   tags C05 C14 C18
+//@   ensures[C05 C14 C18] ok: result1 == numOk(v)
 //@   ensures value: result1 ==> result0 == numDec(v)
 
 //@ func toFloat
@@ -145,7 +145,7 @@ package evaluator
 //@ func toNumber
 //@   tags C14 C05 C02
 //@   ensures passthrough: isNum(v) ==> result == v
-//@   ensures[C05 C02] string: isStr(v) ==> (decUnmarshalOk(str(v)) ==> result == mkDec(decUnmarshal(str(v)))) && (!decUnmarshalOk(str(v)) ==> result == nil)
+//@   ensures[C05 C02 C14] string: isStr(v) ==> (decUnmarshalOk(str(v)) ==> result == mkDec(decUnmarshal(str(v)))) && (!decUnmarshalOk(str(v)) ==> result == nil)
 //@   ensures other: !isNum(v) && !isStr(v) ==> result == nil
 
 // integer coercion of numeric arguments: ok exactly when the value is an integer that fits in int,
@@ -157,7 +157,7 @@ package evaluator
 
 //@ func toInt
 //@   tags C02 C14 C03
-//@   ensures isnum.other: !isJNum(v) ==> result1 == isNum(v)
+//@   ensures[C02 C14 C03 C18] isnum.other: !isJNum(v) ==> result1 == isNum(v)
 //@   ensures isnum.jnum: isJNum(v) ==> result1 == decParseOk(jnum(v))
 //@   ensures ok: result2 == (numOk(v) && intOk(v))
 //@   ensures value: result2 ==> result0 == intVal(v)
@@ -179,9 +179,9 @@ package evaluator
 //@   ensures float.value: isFlt(x) && isFlt(y) && !f64IsInf(f64Add(fval(x), fval(y))) && !f64IsNaN(f64Add(fval(x), fval(y))) ==> result == mkF64(f64Add(fval(x), fval(y))) && err == nil
 //@   ensures type.x: !(isFlt(x) && isFlt(y)) && !numOk(x) ==> result == nil && isTypeErr(err)
 //@   ensures type.y: !(isFlt(x) && isFlt(y)) && numOk(x) && !numOk(y) ==> result == nil && isTypeErr(err)
-//@   ensures[C05] dec.inf: !(isFlt(x) && isFlt(y)) && numOk(x) && numOk(y) && decIsInf(decAdd(numDec(x), numDec(y))) ==> result == nil && err == global("evaluator.ErrInfinity")
-//@   ensures[C05] dec.nan: !(isFlt(x) && isFlt(y)) && numOk(x) && numOk(y) && !decIsInf(decAdd(numDec(x), numDec(y))) && decIsNaN(decAdd(numDec(x), numDec(y))) ==> result == nil && err == global("evaluator.ErrNotANumber")
-//@   ensures[C05] dec.value: !(isFlt(x) && isFlt(y)) && numOk(x) && numOk(y) && !decIsInf(decAdd(numDec(x), numDec(y))) && !decIsNaN(decAdd(numDec(x), numDec(y))) ==> result == mkDec(decAdd(numDec(x), numDec(y))) && err == nil
+//@   ensures[C05 C14] dec.inf: !(isFlt(x) && isFlt(y)) && numOk(x) && numOk(y) && decIsInf(decAdd(numDec(x), numDec(y))) ==> result == nil && err == global("evaluator.ErrInfinity")
+//@   ensures[C05 C14] dec.nan: !(isFlt(x) && isFlt(y)) && numOk(x) && numOk(y) && !decIsInf(decAdd(numDec(x), numDec(y))) && decIsNaN(decAdd(numDec(x), numDec(y))) ==> result == nil && err == global("evaluator.ErrNotANumber")
+//@   ensures[C05 C14] dec.value: !(isFlt(x) && isFlt(y)) && numOk(x) && numOk(y) && !decIsInf(decAdd(numDec(x), numDec(y))) && !decIsNaN(decAdd(numDec(x), numDec(y))) ==> result == mkDec(decAdd(numDec(x), numDec(y))) && err == nil
 
 //@ func subtract
 //@   tags C05 C14 C18
@@ -190,9 +190,9 @@ package evaluator
 //@   ensures float.value: isFlt(x) && isFlt(y) && !f64IsInf(f64Sub(fval(x), fval(y))) && !f64IsNaN(f64Sub(fval(x), fval(y))) ==> result == mkF64(f64Sub(fval(x), fval(y))) && err == nil
 //@   ensures type.x: !(isFlt(x) && isFlt(y)) && !numOk(x) ==> result == nil && isTypeErr(err)
 //@   ensures type.y: !(isFlt(x) && isFlt(y)) && numOk(x) && !numOk(y) ==> result == nil && isTypeErr(err)
-//@   ensures[C05] dec.inf: !(isFlt(x) && isFlt(y)) && numOk(x) && numOk(y) && decIsInf(decSub(numDec(x), numDec(y))) ==> result == nil && err == global("evaluator.ErrInfinity")
-//@   ensures[C05] dec.nan: !(isFlt(x) && isFlt(y)) && numOk(x) && numOk(y) && !decIsInf(decSub(numDec(x), numDec(y))) && decIsNaN(decSub(numDec(x), numDec(y))) ==> result == nil && err == global("evaluator.ErrNotANumber")
-//@   ensures[C05] dec.value: !(isFlt(x) && isFlt(y)) && numOk(x) && numOk(y) && !decIsInf(decSub(numDec(x), numDec(y))) && !decIsNaN(decSub(numDec(x), numDec(y))) ==> result == mkDec(decSub(numDec(x), numDec(y))) && err == nil
+//@   ensures[C05 C14] dec.inf: !(isFlt(x) && isFlt(y)) && numOk(x) && numOk(y) && decIsInf(decSub(numDec(x), numDec(y))) ==> result == nil && err == global("evaluator.ErrInfinity")
+//@   ensures[C05 C14] dec.nan: !(isFlt(x) && isFlt(y)) && numOk(x) && numOk(y) && !decIsInf(decSub(numDec(x), numDec(y))) && decIsNaN(decSub(numDec(x), numDec(y))) ==> result == nil && err == global("evaluator.ErrNotANumber")
+//@   ensures[C05 C14] dec.value: !(isFlt(x) && isFlt(y)) && numOk(x) && numOk(y) && !decIsInf(decSub(numDec(x), numDec(y))) && !decIsNaN(decSub(numDec(x), numDec(y))) ==> result == mkDec(decSub(numDec(x), numDec(y))) && err == nil
 
 //@ func multiply
 //@   tags C05 C14 C18
@@ -201,9 +201,9 @@ package evaluator
 //@   ensures float.value: isFlt(x) && isFlt(y) && !f64IsInf(f64Mul(fval(x), fval(y))) && !f64IsNaN(f64Mul(fval(x), fval(y))) ==> result == mkF64(f64Mul(fval(x), fval(y))) && err == nil
 //@   ensures type.x: !(isFlt(x) && isFlt(y)) && !numOk(x) ==> result == nil && isTypeErr(err)
 //@   ensures type.y: !(isFlt(x) && isFlt(y)) && numOk(x) && !numOk(y) ==> result == nil && isTypeErr(err)
-//@   ensures[C05] dec.inf: !(isFlt(x) && isFlt(y)) && numOk(x) && numOk(y) && decIsInf(decMul(numDec(x), numDec(y))) ==> result == nil && err == global("evaluator.ErrInfinity")
-//@   ensures[C05] dec.nan: !(isFlt(x) && isFlt(y)) && numOk(x) && numOk(y) && !decIsInf(decMul(numDec(x), numDec(y))) && decIsNaN(decMul(numDec(x), numDec(y))) ==> result == nil && err == global("evaluator.ErrNotANumber")
-//@   ensures[C05] dec.value: !(isFlt(x) && isFlt(y)) && numOk(x) && numOk(y) && !decIsInf(decMul(numDec(x), numDec(y))) && !decIsNaN(decMul(numDec(x), numDec(y))) ==> result == mkDec(decMul(numDec(x), numDec(y))) && err == nil
+//@   ensures[C05 C14] dec.inf: !(isFlt(x) && isFlt(y)) && numOk(x) && numOk(y) && decIsInf(decMul(numDec(x), numDec(y))) ==> result == nil && err == global("evaluator.ErrInfinity")
+//@   ensures[C05 C14] dec.nan: !(isFlt(x) && isFlt(y)) && numOk(x) && numOk(y) && !decIsInf(decMul(numDec(x), numDec(y))) && decIsNaN(decMul(numDec(x), numDec(y))) ==> result == nil && err == global("evaluator.ErrNotANumber")
+//@   ensures[C05 C14] dec.value: !(isFlt(x) && isFlt(y)) && numOk(x) && numOk(y) && !decIsInf(decMul(numDec(x), numDec(y))) && !decIsNaN(decMul(numDec(x), numDec(y))) ==> result == mkDec(decMul(numDec(x), numDec(y))) && err == nil
 
 //@ func divide
 //@   tags C05 C14 C18
@@ -212,9 +212,9 @@ package evaluator
 //@   ensures float.value: isFlt(x) && isFlt(y) && !f64IsInf(f64Div(fval(x), fval(y))) && !f64IsNaN(f64Div(fval(x), fval(y))) ==> result == mkF64(f64Div(fval(x), fval(y))) && err == nil
 //@   ensures type.x: !(isFlt(x) && isFlt(y)) && !numOk(x) ==> result == nil && isTypeErr(err)
 //@   ensures type.y: !(isFlt(x) && isFlt(y)) && numOk(x) && !numOk(y) ==> result == nil && isTypeErr(err)
-//@   ensures[C05] dec.inf: !(isFlt(x) && isFlt(y)) && numOk(x) && numOk(y) && decIsInf(decQuo(numDec(x), numDec(y))) ==> result == nil && err == global("evaluator.ErrInfinity")
-//@   ensures[C05] dec.nan: !(isFlt(x) && isFlt(y)) && numOk(x) && numOk(y) && !decIsInf(decQuo(numDec(x), numDec(y))) && decIsNaN(decQuo(numDec(x), numDec(y))) ==> result == nil && err == global("evaluator.ErrNotANumber")
-//@   ensures[C05] dec.value: !(isFlt(x) && isFlt(y)) && numOk(x) && numOk(y) && !decIsInf(decQuo(numDec(x), numDec(y))) && !decIsNaN(decQuo(numDec(x), numDec(y))) ==> result == mkDec(decQuo(numDec(x), numDec(y))) && err == nil
+//@   ensures[C05 C14] dec.inf: !(isFlt(x) && isFlt(y)) && numOk(x) && numOk(y) && decIsInf(decQuo(numDec(x), numDec(y))) ==> result == nil && err == global("evaluator.ErrInfinity")
+//@   ensures[C05 C14] dec.nan: !(isFlt(x) && isFlt(y)) && numOk(x) && numOk(y) && !decIsInf(decQuo(numDec(x), numDec(y))) && decIsNaN(decQuo(numDec(x), numDec(y))) ==> result == nil && err == global("evaluator.ErrNotANumber")
+//@   ensures[C05 C14] dec.value: !(isFlt(x) && isFlt(y)) && numOk(x) && numOk(y) && !decIsInf(decQuo(numDec(x), numDec(y))) && !decIsNaN(decQuo(numDec(x), numDec(y))) ==> result == mkDec(decQuo(numDec(x), numDec(y))) && err == nil
 
 //@ func integerDivide
 //@   tags C05 C14 C18
@@ -223,9 +223,9 @@ package evaluator
 //@   ensures float.value: isFlt(x) && isFlt(y) && !f64IsInf(f64Floor(f64Div(fval(x), fval(y)))) && !f64IsNaN(f64Floor(f64Div(fval(x), fval(y)))) ==> result == mkF64(f64Floor(f64Div(fval(x), fval(y)))) && err == nil
 //@   ensures type.x: !(isFlt(x) && isFlt(y)) && !numOk(x) ==> result == nil && isTypeErr(err)
 //@   ensures type.y: !(isFlt(x) && isFlt(y)) && numOk(x) && !numOk(y) ==> result == nil && isTypeErr(err)
-//@   ensures[C05] dec.inf: !(isFlt(x) && isFlt(y)) && numOk(x) && numOk(y) && decIsInf(decQuoRemQ(numDec(x), numDec(y))) ==> result == nil && err == global("evaluator.ErrInfinity")
-//@   ensures[C05] dec.nan: !(isFlt(x) && isFlt(y)) && numOk(x) && numOk(y) && !decIsInf(decQuoRemQ(numDec(x), numDec(y))) && decIsNaN(decQuoRemQ(numDec(x), numDec(y))) ==> result == nil && err == global("evaluator.ErrNotANumber")
-//@   ensures[C05] dec.value: !(isFlt(x) && isFlt(y)) && numOk(x) && numOk(y) && !decIsInf(decQuoRemQ(numDec(x), numDec(y))) && !decIsNaN(decQuoRemQ(numDec(x), numDec(y))) ==> result == mkDec(decQuoRemQ(numDec(x), numDec(y))) && err == nil
+//@   ensures[C05 C14] dec.inf: !(isFlt(x) && isFlt(y)) && numOk(x) && numOk(y) && decIsInf(decQuoRemQ(numDec(x), numDec(y))) ==> result == nil && err == global("evaluator.ErrInfinity")
+//@   ensures[C05 C14] dec.nan: !(isFlt(x) && isFlt(y)) && numOk(x) && numOk(y) && !decIsInf(decQuoRemQ(numDec(x), numDec(y))) && decIsNaN(decQuoRemQ(numDec(x), numDec(y))) ==> result == nil && err == global("evaluator.ErrNotANumber")
+//@   ensures[C05 C14] dec.value: !(isFlt(x) && isFlt(y)) && numOk(x) && numOk(y) && !decIsInf(decQuoRemQ(numDec(x), numDec(y))) && !decIsNaN(decQuoRemQ(numDec(x), numDec(y))) ==> result == mkDec(decQuoRemQ(numDec(x), numDec(y))) && err == nil
 
 //@ func modulo
 //@   tags C05 C14 C18
@@ -234,27 +234,27 @@ package evaluator
 //@   ensures float.value: isFlt(x) && isFlt(y) && !f64IsInf(f64Mod(fval(x), fval(y))) && !f64IsNaN(f64Mod(fval(x), fval(y))) ==> result == mkF64(f64Mod(fval(x), fval(y))) && err == nil
 //@   ensures type.x: !(isFlt(x) && isFlt(y)) && !numOk(x) ==> result == nil && isTypeErr(err)
 //@   ensures type.y: !(isFlt(x) && isFlt(y)) && numOk(x) && !numOk(y) ==> result == nil && isTypeErr(err)
-//@   ensures[C05] dec.inf: !(isFlt(x) && isFlt(y)) && numOk(x) && numOk(y) && decIsInf(decQuoRemR(numDec(x), numDec(y))) ==> result == nil && err == global("evaluator.ErrInfinity")
-//@   ensures[C05] dec.nan: !(isFlt(x) && isFlt(y)) && numOk(x) && numOk(y) && !decIsInf(decQuoRemR(numDec(x), numDec(y))) && decIsNaN(decQuoRemR(numDec(x), numDec(y))) ==> result == nil && err == global("evaluator.ErrNotANumber")
-//@   ensures[C05] dec.value: !(isFlt(x) && isFlt(y)) && numOk(x) && numOk(y) && !decIsInf(decQuoRemR(numDec(x), numDec(y))) && !decIsNaN(decQuoRemR(numDec(x), numDec(y))) ==> result == mkDec(decQuoRemR(numDec(x), numDec(y))) && err == nil
+//@   ensures[C05 C14] dec.inf: !(isFlt(x) && isFlt(y)) && numOk(x) && numOk(y) && decIsInf(decQuoRemR(numDec(x), numDec(y))) ==> result == nil && err == global("evaluator.ErrInfinity")
+//@   ensures[C05 C14] dec.nan: !(isFlt(x) && isFlt(y)) && numOk(x) && numOk(y) && !decIsInf(decQuoRemR(numDec(x), numDec(y))) && decIsNaN(decQuoRemR(numDec(x), numDec(y))) ==> result == nil && err == global("evaluator.ErrNotANumber")
+//@   ensures[C05 C14] dec.value: !(isFlt(x) && isFlt(y)) && numOk(x) && numOk(y) && !decIsInf(decQuoRemR(numDec(x), numDec(y))) && !decIsNaN(decQuoRemR(numDec(x), numDec(y))) ==> result == mkDec(decQuoRemR(numDec(x), numDec(y))) && err == nil
 
 //@ func abs
 //@   tags C05 C14 C18
 //@   ensures float: isFlt(v) ==> result == mkF64(f64Abs(fval(v))) && err == nil
 //@   ensures type: !isFlt(v) && !numOk(v) ==> result == nil && isTypeErr(err)
-//@   ensures[C05] dec: !isFlt(v) && numOk(v) ==> result == mkDec(decAbs(numDec(v))) && err == nil
+//@   ensures[C05 C14] dec: !isFlt(v) && numOk(v) ==> result == mkDec(decAbs(numDec(v))) && err == nil
 
 //@ func ceil
 //@   tags C05 C14 C18
 //@   ensures float: isFlt(v) ==> result == mkF64(f64Ceil(fval(v))) && err == nil
 //@   ensures type: !isFlt(v) && !numOk(v) ==> result == nil && isTypeErr(err)
-//@   ensures[C05] dec: !isFlt(v) && numOk(v) ==> result == mkDec(decCeil(numDec(v))) && err == nil
+//@   ensures[C05 C14] dec: !isFlt(v) && numOk(v) ==> result == mkDec(decCeil(numDec(v))) && err == nil
 
 //@ func floor
 //@   tags C05 C14 C18
 //@   ensures float: isFlt(v) ==> result == mkF64(f64Floor(fval(v))) && err == nil
 //@   ensures type: !isFlt(v) && !numOk(v) ==> result == nil && isTypeErr(err)
-//@   ensures[C05] dec: !isFlt(v) && numOk(v) ==> result == mkDec(decFloor(numDec(v))) && err == nil
+//@   ensures[C05 C14] dec: !isFlt(v) && numOk(v) ==> result == mkDec(decFloor(numDec(v))) && err == nil
 
 //@ func less
 //@   tags C05 C14 C01
@@ -302,7 +302,7 @@ package evaluator
 //@     invariant forall k Int :: {at(heap, x, k)} 0 <= k && k < iter ==> specEq(heap, at(heap, x, k), at(heap, y, k))
 //@   loop 2
 //@     invariant isObj(x0) && isObj(y0) && x == obj(x0) && y == obj(y0) && mlen(heap, x) == mlen(heap, y)
-//@     invariant[C20 C15 C01] forall k Int :: {it_seen[k]} it_seen[k] ==> mhasKey(heap, y, k) && specEq(heap, mgetKey(heap, x, k), mgetKey(heap, y, k))
+//@     invariant[C20 C15 C01 C05] forall k Int :: {it_seen[k]} it_seen[k] ==> mhasKey(heap, y, k) && specEq(heap, mgetKey(heap, x, k), mgetKey(heap, y, k))
 
 //@ func contains
 //@   tags C20 C02
@@ -449,8 +449,8 @@ package evaluator
 //@   ensures failure: err != nil ==> result == nil
 //@   ensures kind: isArr(value) && err == nil ==> isArr(result) && fresh(arr(result))
 //@   ensures[C01 C17 C19] elems: isArr(value) && err == nil ==> (forall k Int :: 0 <= k && k < len(arr(value)) ==> isEv(e.root, node, arr(value)[k], variables, log1[k]))
-//@   ensures[C01 C17] count: isArr(value) && err == nil ==> len(arr(result)) == nn(log1, len(arr(value)))
-//@   ensures[C01 C17] order: isArr(value) && err == nil ==> (forall k Int :: 0 <= k && k < len(arr(value)) && log1[k] != nil ==> arr(result)[nn(log1, k)] == log1[k])
+//@   ensures[C01 C17 C19] count: isArr(value) && err == nil ==> len(arr(result)) == nn(log1, len(arr(value)))
+//@   ensures[C01 C17 C19] order: isArr(value) && err == nil ==> (forall k Int :: 0 <= k && k < len(arr(value)) && log1[k] != nil ==> arr(result)[nn(log1, k)] == log1[k])
 //@   loop 1
 //@     invariant isArr(value0) && a == arr(value0) && fresh(r)
 //@     invariant forall k Int :: 0 <= k && k < iter ==> isEv(e.root, node, a[k], variables, log1[k])
@@ -469,8 +469,8 @@ package evaluator
 //@   ensures failure: err != nil ==> result == nil
 //@   ensures kind: isArr(value) && err == nil ==> isArr(result) && fresh(arr(result))
 //@   ensures[C01 C19 C20] preds: isArr(value) && err == nil ==> (forall k Int :: 0 <= k && k < len(arr(value)) ==> isEv(e.root, node, arr(value)[k], variables, log1[k]))
-//@   ensures[C01 C20] count: isArr(value) && err == nil ==> len(arr(result)) == nt(log1, len(arr(value)))
-//@   ensures[C01 C20] order: isArr(value) && err == nil ==> (forall k Int :: 0 <= k && k < len(arr(value)) && truthy(log1[k]) ==> arr(result)[nt(log1, k)] == arr(value)[k])
+//@   ensures[C01 C20 C19] count: isArr(value) && err == nil ==> len(arr(result)) == nt(log1, len(arr(value)))
+//@   ensures[C01 C20 C19] order: isArr(value) && err == nil ==> (forall k Int :: 0 <= k && k < len(arr(value)) && truthy(log1[k]) ==> arr(result)[nt(log1, k)] == arr(value)[k])
 //@   loop 1
 //@     invariant isArr(value0) && a == arr(value0) && fresh(r)
 //@     invariant forall k Int :: 0 <= k && k < iter ==> isEv(e.root, node, a[k], variables, log1[k])
@@ -491,9 +491,9 @@ package evaluator
 //@   ensures failure: err != nil ==> result == nil
 //@   ensures kind: isArr(value) && err == nil ==> isArr(result) && fresh(arr(result))
 //@   ensures[C01 C17 C19 C20] preds: isArr(value) && err == nil ==> (forall k Int :: 0 <= k && k < len(arr(value)) ==> isEv(e.root, filter, arr(value)[k], variables, log1[k]))
-//@   ensures[C01 C17 C19] elems: isArr(value) && err == nil ==> (forall k Int :: 0 <= k && k < len(arr(value)) && truthy(log1[k]) ==> isEv(e.root, node, arr(value)[k], variables, log2[k]))
-//@   ensures[C01 C17] count: isArr(value) && err == nil ==> len(arr(result)) == nfp(log1, log2, len(arr(value)))
-//@   ensures[C01 C17] order: isArr(value) && err == nil ==> (forall k Int :: 0 <= k && k < len(arr(value)) && truthy(log1[k]) && log2[k] != nil ==> arr(result)[nfp(log1, log2, k)] == log2[k])
+//@   ensures[C01 C17 C19 C20] elems: isArr(value) && err == nil ==> (forall k Int :: 0 <= k && k < len(arr(value)) && truthy(log1[k]) ==> isEv(e.root, node, arr(value)[k], variables, log2[k]))
+//@   ensures[C01 C17 C20] count: isArr(value) && err == nil ==> len(arr(result)) == nfp(log1, log2, len(arr(value)))
+//@   ensures[C01 C17 C20] order: isArr(value) && err == nil ==> (forall k Int :: 0 <= k && k < len(arr(value)) && truthy(log1[k]) && log2[k] != nil ==> arr(result)[nfp(log1, log2, k)] == log2[k])
 //@   loop 1
 //@     invariant isArr(value0) && a == arr(value0) && fresh(r)
 //@     invariant forall k Int :: 0 <= k && k < iter ==> isEv(e.root, filter, a[k], variables, log1[k])
@@ -639,7 +639,7 @@ package evaluator
 //@ func evaluator.mapArray
 //@   requires node != nil
 //@ func evaluator.flattenAndProjectArray
-//@   tags C03 C06 C01
+//@   tags C03 C06 C01 C17
 //@   requires node != nil
 //@   ensures nonarray: !isArr(value) ==> result == nil && err == nil
 //@   ensures failure: err != nil ==> result == nil
@@ -649,49 +649,49 @@ package evaluator
 //@   loop 2
 //@     invariant fresh(r)
 //@ func evaluator.projectObject
-//@   tags C03 C06 C01 C15
+//@   tags C03 C06 C01 C15 C17 C19
 //@   requires node != nil
 //@   ensures nonobject: !isObj(value) ==> result == nil && err == nil
 //@   ensures failure: err != nil ==> result == nil
 //@   ensures kind: isObj(value) && err == nil ==> isArr(result) && fresh(arr(result))
-//@   ensures[C01] nonnull: isObj(value) && err == nil ==> (forall k Int :: 0 <= k && k < len(arr(result)) ==> arr(result)[k] != nil)
+//@   ensures[C01 C15 C17 C19] nonnull: isObj(value) && err == nil ==> (forall k Int :: 0 <= k && k < len(arr(result)) ==> arr(result)[k] != nil)
 //@   loop 1
 //@     invariant fresh(r) && (forall k Int :: 0 <= k && k < len(r) ==> r[k] != nil)
-//@     invariant[C15] len(r) <= it_n
+//@     invariant[C15 C01 C17 C19] len(r) <= it_n
 //@ func evaluator.groupBy
-//@   tags C03 C06 C02
+//@   tags C03 C06 C02 C15 C19
 //@   requires node != nil
 //@   ensures failure: err != nil ==> result == nil
 //@   loop 1
 //@     invariant fresh(r) && r != nil && (forall k Int :: hasKey(r, k) ==> isArr(getKey(r, k)) && fresh(arr(getKey(r, k))))
 //@ func evaluator.sortArrayBy
-//@   tags C03 C06 C13 C02
+//@   tags C03 C06 C13 C02 C19
 //@   requires node != nil
 //@ func evaluator.arrayMaxBy
-//@   tags C03 C06 C13 C02
+//@   tags C03 C06 C13 C02 C19
 //@   requires node != nil
 //@   loop 1
 //@     invariant 0 <= index && index < len(a) && len(a) >= 1
-//@     invariant[C13] current: isArr(value0) && a == arr(value0) && (exists key Val :: isEv(e.root, node, a[index], variables, key) && isStr(key) && str(key) == strMax)
-//@     invariant[C13] extremal: forall k Int :: 0 <= k && k <= iter ==> (exists r Val :: isEv(e.root, node, a[k], variables, r) && isStr(r) && !(str(r) > strMax))
+//@     invariant[C13 C19] current: isArr(value0) && a == arr(value0) && (exists key Val :: isEv(e.root, node, a[index], variables, key) && isStr(key) && str(key) == strMax)
+//@     invariant[C13 C19] extremal: forall k Int :: 0 <= k && k <= iter ==> (exists r Val :: isEv(e.root, node, a[k], variables, r) && isStr(r) && !(str(r) > strMax))
 //@     invariant forall k Int :: 0 <= k && k < len(a) - 1 ==> a[1:][k] == a[k + 1]
 //@   loop 2
 //@     invariant 0 <= index && index < len(a) && len(a) >= 1
-//@     invariant[C13] current: isArr(value0) && a == arr(value0) && (exists key Val :: isEv(e.root, node, a[index], variables, key) && numOk(key) && numDec(key) == numMax)
-//@     invariant[C13] extremal: forall k Int :: 0 <= k && k <= iter ==> (exists r Val :: isEv(e.root, node, a[k], variables, r) && numOk(r) && decCmp(numDec(r), numMax) != 1)
+//@     invariant[C13 C19] current: isArr(value0) && a == arr(value0) && (exists key Val :: isEv(e.root, node, a[index], variables, key) && numOk(key) && numDec(key) == numMax)
+//@     invariant[C13 C19] extremal: forall k Int :: 0 <= k && k <= iter ==> (exists r Val :: isEv(e.root, node, a[k], variables, r) && numOk(r) && decCmp(numDec(r), numMax) != 1)
 //@     invariant forall k Int :: 0 <= k && k < len(a) - 1 ==> a[1:][k] == a[k + 1]
 //@ func evaluator.arrayMinBy
-//@   tags C03 C06 C13 C02
+//@   tags C03 C06 C13 C02 C19
 //@   requires node != nil
 //@   loop 1
 //@     invariant 0 <= index && index < len(a) && len(a) >= 1
-//@     invariant[C13] current: isArr(value0) && a == arr(value0) && (exists key Val :: isEv(e.root, node, a[index], variables, key) && isStr(key) && str(key) == strMin)
-//@     invariant[C13] extremal: forall k Int :: 0 <= k && k <= iter ==> (exists r Val :: isEv(e.root, node, a[k], variables, r) && isStr(r) && !(str(r) < strMin))
+//@     invariant[C13 C19] current: isArr(value0) && a == arr(value0) && (exists key Val :: isEv(e.root, node, a[index], variables, key) && isStr(key) && str(key) == strMin)
+//@     invariant[C13 C19] extremal: forall k Int :: 0 <= k && k <= iter ==> (exists r Val :: isEv(e.root, node, a[k], variables, r) && isStr(r) && !(str(r) < strMin))
 //@     invariant forall k Int :: 0 <= k && k < len(a) - 1 ==> a[1:][k] == a[k + 1]
 //@   loop 2
 //@     invariant 0 <= index && index < len(a) && len(a) >= 1
-//@     invariant[C13] current: isArr(value0) && a == arr(value0) && (exists key Val :: isEv(e.root, node, a[index], variables, key) && numOk(key) && numDec(key) == numMin)
-//@     invariant[C13] extremal: forall k Int :: 0 <= k && k <= iter ==> (exists r Val :: isEv(e.root, node, a[k], variables, r) && numOk(r) && decCmp(numDec(r), numMin) != 0 - 1)
+//@     invariant[C13 C19] current: isArr(value0) && a == arr(value0) && (exists key Val :: isEv(e.root, node, a[index], variables, key) && numOk(key) && numDec(key) == numMin)
+//@     invariant[C13 C19] extremal: forall k Int :: 0 <= k && k <= iter ==> (exists r Val :: isEv(e.root, node, a[k], variables, r) && numOk(r) && decCmp(numDec(r), numMin) != 0 - 1)
 //@     invariant forall k Int :: 0 <= k && k < len(a) - 1 ==> a[1:][k] == a[k + 1]
 
 // object enumerations: the i-th slot is filled in the i-th iteration (C03, C15)
@@ -709,9 +709,9 @@ package evaluator
 //@   loop 1
 //@     invariant[C03 C06 C15] i == it_n && len(r) == len(m) && fresh(r)
 //@ func objectValues
-//@   tags C03 C06 C15 C01
+//@   tags C03 C06 C15 C01 C17
 //@   loop 1
-//@     invariant[C03 C06 C15] i == it_n && len(r) == len(m) && fresh(r)
+//@     invariant[C03 C06 C15 C01 C17] i == it_n && len(r) == len(m) && fresh(r)
 
 //@ func reverse
 //@   tags C03 C06 C11 C09
@@ -721,7 +721,7 @@ package evaluator
 //@     bound len(str(v0))
 //@   loop 2
 //@     invariant 0 <= i && i <= l && j == l - 1 - i && len(r) == l && l == len(a) && fresh(r)
-//@     invariant[C02] order: isArr(v0) && a == arr(v0) && (forall k Int :: 0 <= k && k < i ==> r[l - 1 - k] == a[k])
+//@     invariant[C02 C06 C11] order: isArr(v0) && a == arr(v0) && (forall k Int :: 0 <= k && k < i ==> r[l - 1 - k] == a[k])
 //@     decreases l - i
 //@     bound len(arr(v0))
 
@@ -749,7 +749,7 @@ package evaluator
 
 //@ func findFirstBetween
 //@   tags C03 C09 C11 C02 C06
-//@   ensures[C11 C02] count: result1 == nil && result0 != nil ==> isInt(result0) && kind(result0) == 4 && 0 <= intv(result0) && intv(result0) <= runes(str(value))
+//@   ensures[C11 C02 C03] count: result1 == nil && result0 != nil ==> isInt(result0) && kind(result0) == 4 && 0 <= intv(result0) && intv(result0) <= runes(str(value))
 //@   ensures failure: result1 != nil ==> result0 == nil
 //@   loop 1
 //@     invariant 0 <= j && j <= i && 0 <= n && n <= len(s) && i <= len(s) && s == str(value0) && isbound(s, lo(s) + n)
@@ -762,7 +762,7 @@ package evaluator
 
 //@ func findLastBetween
 //@   tags C03 C09 C11 C02 C06
-//@   ensures[C11 C02] count: result1 == nil && result0 != nil ==> isInt(result0) && kind(result0) == 4 && 0 <= intv(result0) && intv(result0) <= runes(str(value))
+//@   ensures[C11 C02 C03] count: result1 == nil && result0 != nil ==> isInt(result0) && kind(result0) == 4 && 0 <= intv(result0) && intv(result0) <= runes(str(value))
 //@   ensures failure: result1 != nil ==> result0 == nil
 //@   loop 1
 //@     invariant 0 <= j && j <= i && 0 <= n && n <= len(s) && i <= len(s) && s == str(value0) && isbound(s, lo(s) + n)
@@ -812,7 +812,7 @@ package evaluator
 //@   ensures type.sep: isStr(value) && !isStr(sep) ==> result0 == nil && isTypeErr(result1)
 //@   ensures ok: isStr(value) && isStr(sep) ==> result1 == nil && isArr(result0)
 //@   ensures empty: isStr(value) && isStr(sep) && len(str(value)) == 0 ==> len(arr(result0)) == 0
-//@   ensures[C11] units: isStr(value) && isStr(sep) && len(str(sep)) == 0 && len(str(value)) > 0 ==> len(arr(result0)) == runes(str(value)) && (forall k Int :: 0 <= k && k < len(arr(result0)) ==> isStr(arr(result0)[k]) && runes(str(arr(result0)[k])) == 1)
+//@   ensures[C11 C03 C09] units: isStr(value) && isStr(sep) && len(str(sep)) == 0 && len(str(value)) > 0 ==> len(arr(result0)) == runes(str(value)) && (forall k Int :: 0 <= k && k < len(arr(result0)) ==> isStr(arr(result0)[k]) && runes(str(arr(result0)[k])) == 1)
 //@   loop 1
 //@     invariant 0 <= i && i <= n && n == runes(str(value0)) - 1 && len(r) == n + 1 && fresh(r) && subwindow(s, str(value0)) && aligned(s) && runes(s) == n + 1 - i
 //@     invariant forall k Int :: 0 <= k && k < i ==> isStr(r[k]) && runes(str(r[k])) == 1
@@ -827,9 +827,9 @@ package evaluator
 //@   tags C03 C09 C11 C02 C06
 //@   ensures type.value: !isStr(value) ==> result0 == nil && isTypeErr(result1)
 //@   ensures type.sep: isStr(value) && !isStr(sep) ==> result0 == nil && isTypeErr(result1)
-//@   ensures[C02 C08] type.count: isStr(value) && isStr(sep) && !numOk(count) ==> result0 == nil && isTypeErr(result1)
-//@   ensures[C02 C08] value.count: isStr(value) && isStr(sep) && numOk(count) && !intOk(count) ==> result0 == nil && isType(result1, "*github.com/woodsbury/jmespath/internal/evaluator.integerConversionError")
-//@   ensures[C02 C08] negative: isStr(value) && isStr(sep) && numOk(count) && intOk(count) && intVal(count) < 0 ==> result0 == nil && isType(result1, "*github.com/woodsbury/jmespath/internal/evaluator.negativeIntegerError")
+//@   ensures[C02 C08 C03 C09 C11] type.count: isStr(value) && isStr(sep) && !numOk(count) ==> result0 == nil && isTypeErr(result1)
+//@   ensures[C02 C08 C03 C09 C11] value.count: isStr(value) && isStr(sep) && numOk(count) && !intOk(count) ==> result0 == nil && isType(result1, "*github.com/woodsbury/jmespath/internal/evaluator.integerConversionError")
+//@   ensures[C02 C08 C03 C09 C11] negative: isStr(value) && isStr(sep) && numOk(count) && intOk(count) && intVal(count) < 0 ==> result0 == nil && isType(result1, "*github.com/woodsbury/jmespath/internal/evaluator.negativeIntegerError")
 //@   ensures ok: isStr(value) && isStr(sep) && numOk(count) && intOk(count) && intVal(count) >= 0 ==> result1 == nil && isArr(result0) && len(arr(result0)) <= intVal(count) + 1
 //@   loop 1
 //@     invariant 0 <= i && i <= n && n <= runes(str(value0)) - 1 && len(r) == n + 1 && fresh(r) && subwindow(s, str(value0)) && aligned(s) && runes(s) == runes(str(value0)) - i
@@ -893,9 +893,9 @@ package evaluator
 //@     bound w
 
 //@ func replaceCount
-//@   tags C02 C03 C06
-//@   ensures[C02 C08] negative: isStr(value) && isStr(old) && isStr(new) && numOk(count) && intOk(count) && intVal(count) < 0 ==> result0 == nil && isType(result1, "*github.com/woodsbury/jmespath/internal/evaluator.negativeIntegerError")
-//@   ensures[C02 C08] value.count: isStr(value) && isStr(old) && isStr(new) && numOk(count) && !intOk(count) ==> result0 == nil && isType(result1, "*github.com/woodsbury/jmespath/internal/evaluator.integerConversionError")
+//@   tags C02 C03 C06 C09
+//@   ensures[C02 C08 C09] negative: isStr(value) && isStr(old) && isStr(new) && numOk(count) && intOk(count) && intVal(count) < 0 ==> result0 == nil && isType(result1, "*github.com/woodsbury/jmespath/internal/evaluator.negativeIntegerError")
+//@   ensures[C02 C08 C09] value.count: isStr(value) && isStr(old) && isStr(new) && numOk(count) && !intOk(count) ==> result0 == nil && isType(result1, "*github.com/woodsbury/jmespath/internal/evaluator.integerConversionError")
 //@   ensures ok: isStr(value) && isStr(old) && isStr(new) && numOk(count) && intOk(count) && intVal(count) >= 0 ==> result1 == nil && isStr(result0)
 
 //@ func length
@@ -918,7 +918,7 @@ package evaluator
 
 // the arrays handed to package sort are owned by the call: sorting never touches the caller's data (C06, C07)
 //@ func evaluator.sortArrayBy
-//@   at Stable#* assert[C06 C07 C13] owned: fresh(r.items) && fresh(r.by) && len(r.items) == len(r.by)
+//@   at Stable#* assert[C06 C07 C13 C19] owned: fresh(r.items) && fresh(r.by) && len(r.items) == len(r.by)
 //@   loop 1
 //@     invariant fresh(by) && len(by) == len(a)
 //@   loop 2
@@ -959,14 +959,14 @@ package evaluator
 //@ lemma[C13] n: forall h Heap, s Slice, n Int, k Int :: {allNum(h, s, n), at(h, s, k)} allNum(h, s, n) && 0 <= k && k < n ==> numOk(at(h, s, k))
 
 //@ func arrayMax
-//@   tags C13 C02 C03 C06
+//@   tags C13 C02 C03 C06 C11
 //@   ensures type.array: !isArr(v) ==> result0 == nil && isTypeErr(result1)
 //@   ensures empty: isArr(v) && len(arr(v)) == 0 ==> result0 == nil && result1 == nil
-//@   ensures[C13 C08] type.first: isArr(v) && len(arr(v)) > 0 && !isStr(arr(v)[0]) && !numOk(arr(v)[0]) ==> result0 == nil && isTypeErr(result1)
+//@   ensures[C13 C08 C11] type.first: isArr(v) && len(arr(v)) > 0 && !isStr(arr(v)[0]) && !numOk(arr(v)[0]) ==> result0 == nil && isTypeErr(result1)
 //@   ensures[C13 C11] strings: isArr(v) && len(arr(v)) > 0 && isStr(arr(v)[0]) && result1 == nil ==> isStr(result0) && (forall k Int :: 0 <= k && k < len(arr(v)) ==> isStr(arr(v)[k]) && !(str(arr(v)[k]) > str(result0)))
-//@   ensures[C13 C08] strings.mixed: isArr(v) && len(arr(v)) > 0 && isStr(arr(v)[0]) ==> (result1 == nil <==> allStr(old(heap), arr(v), len(arr(v)))) && (result1 != nil ==> result0 == nil && isTypeErr(result1))
-//@   ensures[C13 C05] numbers: isArr(v) && len(arr(v)) > 0 && numOk(arr(v)[0]) && result1 == nil ==> isDec(result0) && (forall k Int :: 0 <= k && k < len(arr(v)) ==> numOk(arr(v)[k]) && decCmp(numDec(arr(v)[k]), dec(result0)) != 1)
-//@   ensures[C13 C08] numbers.mixed: isArr(v) && len(arr(v)) > 0 && numOk(arr(v)[0]) ==> (result1 == nil <==> allNum(old(heap), arr(v), len(arr(v)))) && (result1 != nil ==> result0 == nil && isTypeErr(result1))
+//@   ensures[C13 C08 C11] strings.mixed: isArr(v) && len(arr(v)) > 0 && isStr(arr(v)[0]) ==> (result1 == nil <==> allStr(old(heap), arr(v), len(arr(v)))) && (result1 != nil ==> result0 == nil && isTypeErr(result1))
+//@   ensures[C13 C05 C11] numbers: isArr(v) && len(arr(v)) > 0 && numOk(arr(v)[0]) && result1 == nil ==> isDec(result0) && (forall k Int :: 0 <= k && k < len(arr(v)) ==> numOk(arr(v)[k]) && decCmp(numDec(arr(v)[k]), dec(result0)) != 1)
+//@   ensures[C13 C08 C11] numbers.mixed: isArr(v) && len(arr(v)) > 0 && numOk(arr(v)[0]) ==> (result1 == nil <==> allNum(old(heap), arr(v), len(arr(v)))) && (result1 != nil ==> result0 == nil && isTypeErr(result1))
 //@   loop 1
 //@     invariant isArr(v0) && a == arr(v0) && len(a) > 0 && isStr(a[0]) && aligned(max) && allStr(old(heap), a, iter + 1)
 //@     invariant forall k Int :: 0 <= k && k <= iter ==> isStr(a[k]) && !(str(a[k]) > max)
@@ -974,17 +974,17 @@ package evaluator
 //@   loop 2
 //@     invariant isArr(v0) && a == arr(v0) && len(a) > 0 && numOk(a[0]) && allNum(old(heap), a, iter + 1)
 //@     invariant forall k Int :: 0 <= k && k <= iter ==> numOk(a[k]) && decCmp(numDec(a[k]), max) != 1
-//@     invariant[C18] finite: jsonInput() ==> decIsFin(max)
+//@     invariant[C18 C11 C13] finite: jsonInput() ==> decIsFin(max)
 //@     invariant forall k Int :: 0 <= k && k < len(a) - 1 ==> a[1:][k] == at(old(heap), a, k + 1)
 //@ func arrayMin
-//@   tags C13 C02 C03 C06
+//@   tags C13 C02 C03 C06 C11
 //@   ensures type.array: !isArr(v) ==> result0 == nil && isTypeErr(result1)
 //@   ensures empty: isArr(v) && len(arr(v)) == 0 ==> result0 == nil && result1 == nil
-//@   ensures[C13 C08] type.first: isArr(v) && len(arr(v)) > 0 && !isStr(arr(v)[0]) && !numOk(arr(v)[0]) ==> result0 == nil && isTypeErr(result1)
+//@   ensures[C13 C08 C11] type.first: isArr(v) && len(arr(v)) > 0 && !isStr(arr(v)[0]) && !numOk(arr(v)[0]) ==> result0 == nil && isTypeErr(result1)
 //@   ensures[C13 C11] strings: isArr(v) && len(arr(v)) > 0 && isStr(arr(v)[0]) && result1 == nil ==> isStr(result0) && (forall k Int :: 0 <= k && k < len(arr(v)) ==> isStr(arr(v)[k]) && !(str(arr(v)[k]) < str(result0)))
-//@   ensures[C13 C08] strings.mixed: isArr(v) && len(arr(v)) > 0 && isStr(arr(v)[0]) ==> (result1 == nil <==> allStr(old(heap), arr(v), len(arr(v)))) && (result1 != nil ==> result0 == nil && isTypeErr(result1))
-//@   ensures[C13 C05] numbers: isArr(v) && len(arr(v)) > 0 && numOk(arr(v)[0]) && result1 == nil ==> isDec(result0) && (forall k Int :: 0 <= k && k < len(arr(v)) ==> numOk(arr(v)[k]) && decCmp(numDec(arr(v)[k]), dec(result0)) != 0 - 1)
-//@   ensures[C13 C08] numbers.mixed: isArr(v) && len(arr(v)) > 0 && numOk(arr(v)[0]) ==> (result1 == nil <==> allNum(old(heap), arr(v), len(arr(v)))) && (result1 != nil ==> result0 == nil && isTypeErr(result1))
+//@   ensures[C13 C08 C11] strings.mixed: isArr(v) && len(arr(v)) > 0 && isStr(arr(v)[0]) ==> (result1 == nil <==> allStr(old(heap), arr(v), len(arr(v)))) && (result1 != nil ==> result0 == nil && isTypeErr(result1))
+//@   ensures[C13 C05 C11] numbers: isArr(v) && len(arr(v)) > 0 && numOk(arr(v)[0]) && result1 == nil ==> isDec(result0) && (forall k Int :: 0 <= k && k < len(arr(v)) ==> numOk(arr(v)[k]) && decCmp(numDec(arr(v)[k]), dec(result0)) != 0 - 1)
+//@   ensures[C13 C08 C11] numbers.mixed: isArr(v) && len(arr(v)) > 0 && numOk(arr(v)[0]) ==> (result1 == nil <==> allNum(old(heap), arr(v), len(arr(v)))) && (result1 != nil ==> result0 == nil && isTypeErr(result1))
 //@   loop 1
 //@     invariant isArr(v0) && a == arr(v0) && len(a) > 0 && isStr(a[0]) && aligned(min) && allStr(old(heap), a, iter + 1)
 //@     invariant forall k Int :: 0 <= k && k <= iter ==> isStr(a[k]) && !(str(a[k]) < min)
@@ -992,7 +992,7 @@ package evaluator
 //@   loop 2
 //@     invariant isArr(v0) && a == arr(v0) && len(a) > 0 && numOk(a[0]) && allNum(old(heap), a, iter + 1)
 //@     invariant forall k Int :: 0 <= k && k <= iter ==> numOk(a[k]) && decCmp(numDec(a[k]), min) != 0 - 1
-//@     invariant[C18] finite: jsonInput() ==> decIsFin(min)
+//@     invariant[C18 C11 C13] finite: jsonInput() ==> decIsFin(min)
 //@     invariant forall k Int :: 0 <= k && k < len(a) - 1 ==> a[1:][k] == at(old(heap), a, k + 1)
 
 // sort_by / max_by / min_by: the key of every element, including the only element of a one-element
@@ -1001,24 +1001,24 @@ package evaluator
 //@   ensures type.array: !isArr(value) ==> result == nil && isTypeErr(err)
 //@   ensures failure: err != nil ==> result == nil
 //@   ensures empty: isArr(value) && len(arr(value)) == 0 ==> err == nil && result == value
-//@   ensures[C13 C19] first.key: isArr(value) && len(arr(value)) >= 1 && err == nil ==> isEv(e.root, node, arr(value)[0], variables, call1) && (isStr(call1) || numOk(call1))
-//@   ensures[C13 C06] fresh: isArr(value) && len(arr(value)) >= 1 && err == nil ==> isArr(result) && fresh(arr(result)) && len(arr(result)) == len(arr(value))
+//@   ensures[C13 C19 C06] first.key: isArr(value) && len(arr(value)) >= 1 && err == nil ==> isEv(e.root, node, arr(value)[0], variables, call1) && (isStr(call1) || numOk(call1))
+//@   ensures[C13 C06 C19] fresh: isArr(value) && len(arr(value)) >= 1 && err == nil ==> isArr(result) && fresh(arr(result)) && len(arr(result)) == len(arr(value))
 //@ func evaluator.arrayMaxBy
 //@   ensures type.array: !isArr(value) ==> result == nil && isTypeErr(err)
 //@   ensures failure: err != nil ==> result == nil
 //@   ensures empty: isArr(value) && len(arr(value)) == 0 ==> err == nil && result == nil
 //@   ensures[C13 C19] first.key: isArr(value) && len(arr(value)) >= 1 && err == nil ==> isEv(e.root, node, arr(value)[0], variables, call1) && (isStr(call1) || numOk(call1))
-//@   ensures[C13] element: isArr(value) && len(arr(value)) >= 1 && err == nil ==> (exists k Int :: 0 <= k && k < len(arr(value)) && result == arr(value)[k])
-//@   ensures[C13] extremal.strings: isArr(value) && len(arr(value)) >= 1 && err == nil && isStr(call1) ==> (exists kr Int, key Val :: 0 <= kr && kr < len(arr(value)) && result == arr(value)[kr] && isEv(e.root, node, arr(value)[kr], variables, key) && isStr(key) && (forall k Int :: 0 <= k && k < len(arr(value)) ==> (exists r Val :: isEv(e.root, node, arr(value)[k], variables, r) && isStr(r) && !(str(r) > str(key)))))
-//@   ensures[C13] extremal.numbers: isArr(value) && len(arr(value)) >= 1 && err == nil && !isStr(call1) ==> (exists kr Int, key Val :: 0 <= kr && kr < len(arr(value)) && result == arr(value)[kr] && isEv(e.root, node, arr(value)[kr], variables, key) && numOk(key) && (forall k Int :: 0 <= k && k < len(arr(value)) ==> (exists r Val :: isEv(e.root, node, arr(value)[k], variables, r) && numOk(r) && decCmp(numDec(r), numDec(key)) != 1)))
+//@   ensures[C13 C19] element: isArr(value) && len(arr(value)) >= 1 && err == nil ==> (exists k Int :: 0 <= k && k < len(arr(value)) && result == arr(value)[k])
+//@   ensures[C13 C19] extremal.strings: isArr(value) && len(arr(value)) >= 1 && err == nil && isStr(call1) ==> (exists kr Int, key Val :: 0 <= kr && kr < len(arr(value)) && result == arr(value)[kr] && isEv(e.root, node, arr(value)[kr], variables, key) && isStr(key) && (forall k Int :: 0 <= k && k < len(arr(value)) ==> (exists r Val :: isEv(e.root, node, arr(value)[k], variables, r) && isStr(r) && !(str(r) > str(key)))))
+//@   ensures[C13 C19] extremal.numbers: isArr(value) && len(arr(value)) >= 1 && err == nil && !isStr(call1) ==> (exists kr Int, key Val :: 0 <= kr && kr < len(arr(value)) && result == arr(value)[kr] && isEv(e.root, node, arr(value)[kr], variables, key) && numOk(key) && (forall k Int :: 0 <= k && k < len(arr(value)) ==> (exists r Val :: isEv(e.root, node, arr(value)[k], variables, r) && numOk(r) && decCmp(numDec(r), numDec(key)) != 1)))
 //@ func evaluator.arrayMinBy
 //@   ensures type.array: !isArr(value) ==> result == nil && isTypeErr(err)
 //@   ensures failure: err != nil ==> result == nil
 //@   ensures empty: isArr(value) && len(arr(value)) == 0 ==> err == nil && result == nil
 //@   ensures[C13 C19] first.key: isArr(value) && len(arr(value)) >= 1 && err == nil ==> isEv(e.root, node, arr(value)[0], variables, call1) && (isStr(call1) || numOk(call1))
-//@   ensures[C13] element: isArr(value) && len(arr(value)) >= 1 && err == nil ==> (exists k Int :: 0 <= k && k < len(arr(value)) && result == arr(value)[k])
-//@   ensures[C13] extremal.strings: isArr(value) && len(arr(value)) >= 1 && err == nil && isStr(call1) ==> (exists kr Int, key Val :: 0 <= kr && kr < len(arr(value)) && result == arr(value)[kr] && isEv(e.root, node, arr(value)[kr], variables, key) && isStr(key) && (forall k Int :: 0 <= k && k < len(arr(value)) ==> (exists r Val :: isEv(e.root, node, arr(value)[k], variables, r) && isStr(r) && !(str(r) < str(key)))))
-//@   ensures[C13] extremal.numbers: isArr(value) && len(arr(value)) >= 1 && err == nil && !isStr(call1) ==> (exists kr Int, key Val :: 0 <= kr && kr < len(arr(value)) && result == arr(value)[kr] && isEv(e.root, node, arr(value)[kr], variables, key) && numOk(key) && (forall k Int :: 0 <= k && k < len(arr(value)) ==> (exists r Val :: isEv(e.root, node, arr(value)[k], variables, r) && numOk(r) && decCmp(numDec(r), numDec(key)) != 0 - 1)))
+//@   ensures[C13 C19] element: isArr(value) && len(arr(value)) >= 1 && err == nil ==> (exists k Int :: 0 <= k && k < len(arr(value)) && result == arr(value)[k])
+//@   ensures[C13 C19] extremal.strings: isArr(value) && len(arr(value)) >= 1 && err == nil && isStr(call1) ==> (exists kr Int, key Val :: 0 <= kr && kr < len(arr(value)) && result == arr(value)[kr] && isEv(e.root, node, arr(value)[kr], variables, key) && isStr(key) && (forall k Int :: 0 <= k && k < len(arr(value)) ==> (exists r Val :: isEv(e.root, node, arr(value)[k], variables, r) && isStr(r) && !(str(r) < str(key)))))
+//@   ensures[C13 C19] extremal.numbers: isArr(value) && len(arr(value)) >= 1 && err == nil && !isStr(call1) ==> (exists kr Int, key Val :: 0 <= kr && kr < len(arr(value)) && result == arr(value)[kr] && isEv(e.root, node, arr(value)[kr], variables, key) && numOk(key) && (forall k Int :: 0 <= k && k < len(arr(value)) ==> (exists r Val :: isEv(e.root, node, arr(value)[k], variables, r) && numOk(r) && decCmp(numDec(r), numDec(key)) != 0 - 1)))
 
 // sort(): the comparator literals lower a flag when they meet an element of the wrong type; slices.SortFunc calls them
 // with every element when there are two or more (callback clause in ext.gvc), so a successful sort means that all
@@ -1032,13 +1032,13 @@ package evaluator
 //@   ensures[C13 C02] flag: cell(valid) ==> numOk(a) && numOk(b)
 //@   ensures[C13 C02] mono: !old(cell(valid)) ==> !cell(valid)
 //@ func sortArray
-//@   tags C13 C02 C03 C06
+//@   tags C13 C02 C03 C06 C11
 //@   at SortFunc#1 invariant[C13 C02] strs: cell(valid) ==> (forall k Int :: {cbSeen(k)} cbSeen(k) ==> isStr(cbElem(k)))
 //@   at SortFunc#2 invariant[C13 C02] nums: cell(valid) ==> (forall k Int :: {cbSeen(k)} cbSeen(k) ==> numOk(cbElem(k)))
-//@   ensures[C13 C02 C08] type.array: !isArr(v) ==> result0 == nil && isTypeErr(result1)
-//@   ensures[C13 C02] strings.only: isArr(v) && len(arr(v)) >= 1 && isStr(arr(v)[0]) && result1 == nil ==> (forall k Int :: 0 <= k && k < len(arr(v)) ==> isStr(arr(v)[k]))
-//@   ensures[C13 C02] numbers.only: isArr(v) && len(arr(v)) >= 1 && !isStr(arr(v)[0]) && result1 == nil ==> (forall k Int :: 0 <= k && k < len(arr(v)) ==> numOk(arr(v)[k]))
-//@   ensures[C13 C02 C08] failure: result1 != nil ==> result0 == nil
+//@   ensures[C13 C02 C08 C06 C11] type.array: !isArr(v) ==> result0 == nil && isTypeErr(result1)
+//@   ensures[C13 C02 C06 C11] strings.only: isArr(v) && len(arr(v)) >= 1 && isStr(arr(v)[0]) && result1 == nil ==> (forall k Int :: 0 <= k && k < len(arr(v)) ==> isStr(arr(v)[k]))
+//@   ensures[C13 C02 C06 C11] numbers.only: isArr(v) && len(arr(v)) >= 1 && !isStr(arr(v)[0]) && result1 == nil ==> (forall k Int :: 0 <= k && k < len(arr(v)) ==> numOk(arr(v)[k]))
+//@   ensures[C13 C02 C08 C06 C11] failure: result1 != nil ==> result0 == nil
 
 // string builtins that delegate to package strings (C02): the argument types and the library function applied
 //@ func lower
@@ -1098,16 +1098,16 @@ package evaluator
 
 // object enumerations (C02, C15): length, and where each element comes from
 //@ func keys
-//@   ensures[C02 C08] type: !isObj(v) ==> result0 == nil && isTypeErr(result1)
+//@   ensures[C02 C08 C15] type: !isObj(v) ==> result0 == nil && isTypeErr(result1)
 //@   ensures[C02 C15] value: isObj(v) ==> result1 == nil && isArr(result0) && len(arr(result0)) == len(obj(v)) && (forall j Int :: 0 <= j && j < len(arr(result0)) ==> isStr(arr(result0)[j]) && has(obj(v), str(arr(result0)[j])))
 //@ func values
-//@   ensures[C02 C08] type: !isObj(v) ==> result0 == nil && isTypeErr(result1)
+//@   ensures[C02 C08 C15] type: !isObj(v) ==> result0 == nil && isTypeErr(result1)
 //@   ensures[C02 C15] value: isObj(v) ==> result1 == nil && isArr(result0) && len(arr(result0)) == len(obj(v))
 //@ func objectValues
-//@   ensures[C01] nonobject: !isObj(v) ==> result == nil
-//@   ensures[C01 C15] value: isObj(v) ==> isArr(result) && len(arr(result)) == len(obj(v))
+//@   ensures[C01 C15 C17] nonobject: !isObj(v) ==> result == nil
+//@   ensures[C01 C15 C17] value: isObj(v) ==> isArr(result) && len(arr(result)) == len(obj(v))
 //@ func items
-//@   ensures[C02 C08] type: !isObj(v) ==> result0 == nil && isTypeErr(result1)
+//@   ensures[C02 C08 C15] type: !isObj(v) ==> result0 == nil && isTypeErr(result1)
 //@   ensures[C02 C15] value: isObj(v) ==> result1 == nil && isArr(result0) && len(arr(result0)) == len(obj(v))
 
 //@ func fromItems
@@ -1120,15 +1120,15 @@ package evaluator
 //@   loop 1
 //@     invariant[C02] pairs: isArr(v0) && a == arr(v0) && fresh(r) && r != nil && (forall j Int :: 0 <= j && j < iter ==> isArr(a[j]) && len(arr(a[j])) == 2 && isStr(arr(a[j])[0]) && has(r, str(arr(a[j])[0])))
 //@ func reverse
-//@   ensures[C02 C08] type: !isStr(v) && !isArr(v) ==> result0 == nil && isTypeErr(result1)
-//@   ensures[C02 C11] string: isStr(v) ==> result1 == nil && isStr(result0)
-//@   ensures[C02] array: isArr(v) ==> result1 == nil && isArr(result0) && len(arr(result0)) == len(arr(v)) && (forall k Int :: 0 <= k && k < len(arr(v)) ==> arr(result0)[k] == arr(v)[len(arr(v)) - 1 - k])
+//@   ensures[C02 C08 C06 C11] type: !isStr(v) && !isArr(v) ==> result0 == nil && isTypeErr(result1)
+//@   ensures[C02 C11 C06] string: isStr(v) ==> result1 == nil && isStr(result0)
+//@   ensures[C02 C06 C11] array: isArr(v) ==> result1 == nil && isArr(result0) && len(arr(result0)) == len(arr(v)) && (forall k Int :: 0 <= k && k < len(arr(v)) ==> arr(result0)[k] == arr(v)[len(arr(v)) - 1 - k])
 // sum and avg fold decimal128 addition over the decimal values of the elements, left to right, starting from zero (C05)
 //@ ghost dsum(h Heap, s Slice, n Int) Dec = ite(n <= 0, decZero(), decAdd(dsum(h, s, n - 1), numDec(at(h, s, n - 1))))
 //@ func sum
 //@   tags C02 C05 C03 C06
-//@   ensures[C02 C08] type: !isArr(v) ==> result0 == nil && isTypeErr(result1)
-//@   ensures[C02 C08] failure: result1 != nil ==> result0 == nil
+//@   ensures[C02 C08 C05] type: !isArr(v) ==> result0 == nil && isTypeErr(result1)
+//@   ensures[C02 C08 C05] failure: result1 != nil ==> result0 == nil
 //@   ensures[C02 C05] elements: isArr(v) && result1 == nil ==> allNum(old(heap), arr(v), len(arr(v)))
 //@   ensures[C05] value: isArr(v) && result1 == nil ==> isDec(result0) && dec(result0) == dsum(old(heap), arr(v), len(arr(v))) && decIsFin(dec(result0))
 //@   ensures[C05 C08] inf: isArr(v) && allNum(old(heap), arr(v), len(arr(v))) && decIsInf(dsum(old(heap), arr(v), len(arr(v)))) ==> result1 == global("evaluator.ErrInfinity")
@@ -1137,9 +1137,9 @@ package evaluator
 //@     invariant[C05 C02] fold: isArr(v0) && a == arr(v0) && r == dsum(old(heap), a, iter) && allNum(old(heap), a, iter)
 //@ func avg
 //@   tags C02 C05 C03 C06
-//@   ensures[C02 C08] type: !isArr(v) ==> result0 == nil && isTypeErr(result1)
-//@   ensures[C02 C08] failure: result1 != nil ==> result0 == nil
-//@   ensures[C02] empty: isArr(v) && len(arr(v)) == 0 ==> result0 == nil && result1 == nil
+//@   ensures[C02 C08 C05] type: !isArr(v) ==> result0 == nil && isTypeErr(result1)
+//@   ensures[C02 C08 C05] failure: result1 != nil ==> result0 == nil
+//@   ensures[C02 C05] empty: isArr(v) && len(arr(v)) == 0 ==> result0 == nil && result1 == nil
 //@   ensures[C02 C05] elements: isArr(v) && len(arr(v)) > 0 && result1 == nil ==> allNum(old(heap), arr(v), len(arr(v)))
 //@   ensures[C05] value: isArr(v) && len(arr(v)) > 0 && result1 == nil ==> isDec(result0) && dec(result0) == decQuo(dsum(old(heap), arr(v), len(arr(v))), decOfInt(len(arr(v)))) && decIsFin(dec(result0))
 //@   loop 1
